@@ -84,6 +84,20 @@ CHECKS.update({
             FMT_NOTE, "DESIGN.md 6/C05"),
 })
 
+CHECKS.update({
+    "C08": ("model_checking", "TLA+ case analysis and exact scaled-integer arithmetic (Ranges.tla) checked by TLC on traces of real decodes; real-number step checked in exact rationals with constants exported from the spec",
+            "TLC decides, per decoded signal cell of real MSM4/MSM7 decodes, the aggregate scaled integers (range unit 2^-29 ms, phase 2^-31 ms, rate 10^-4 m/s), the invalid-marker case analysis "
+            "(invalid rough value => zero and 'invalid' in the display; invalid fine value => rough value alone) and thereby MSM4/MSM7 equivalence.  TLC has no reals: the four floating-point results "
+            "and the wavelength are compared by the harness with exact rational arithmetic (8 ulp) using only the constants Ranges!Export prints (c, 2^-29, 2^-31, 10^-4, the frequency table).",
+            "Split stated above: the floating-point closeness is outside TLA+ (no reals, 32-bit integers).  Scope as in the property: non-negative values, wavelength defined; frequency table = the documented one.",
+            "DESIGN.md 6/C08"),
+    "C15": ("model_checking", "TLC trace validation against the 'stateless' L0 spec (text and decoded fields are a function of frame and log level, learnt at first sight) + Go race detector on the same runs",
+            "The L1 content of this property is 'there is no such variable'; the L0 monitor (C15_Trace.tla) rejects any event whose text digest (minus the MSM time lines) or decoded-field digest differs from the first "
+            "sighting of the same (frame, level), across: fresh handler, every other predecessor order, repetition, delayed display after later decodes, 8 handlers in parallel goroutines with concurrently displayed "
+            "by-value copies, and the real appcore fan-out with a scribbling first consumer; raw bytes must be unchanged by display.  Data races are observed by the race detector.",
+            "Race detection is the Go runtime's, not TLA+'s.  Sampling over a seeded pool of frames.", "DESIGN.md 6/C15"),
+})
+
 NOT_YET = {}
 
 
